@@ -68,6 +68,7 @@ def shards(tier):
             for first in range(6):
                 out.append(("mix", mi, n, first))
     out += [("supplied", form) for form in ("path", "string", "list", "generator")]
+    out.append(("corners",))
     return out
 
 
@@ -278,8 +279,34 @@ def body_supplied(ch, ctx):
     ctx.check(db.count_features_of_type() == n, "supplied-dialect-feature-count", dict(form=form), got=db.count_features_of_type())
 
 
+# single attribute columns whose dialect has one reading, at the corners of the inference rules
+CORNERS = [
+    # a repeated key is a repeated key even when its first occurrence carries no value
+    ("ID=q;Alias=;Alias=X;Alias=Y", {"repeated keys": True, "fmt": "gff3", "keyval separator": "="}),
+    ('gene_id "g"; tag ""; tag "basic"; tag "CCDS";', {"repeated keys": True, "fmt": "gtf", "quoted GFF2 values": True, "trailing semicolon": True}),
+    # '=' inside a quoted GTF value does not make the column GFF3
+    ('gene_id "ENSG=1"; transcript_id "T1";', {"fmt": "gtf", "keyval separator": " ", "quoted GFF2 values": True}),
+    ('gene_id "cov=100%"; note "a=b";', {"fmt": "gtf", "keyval separator": " "}),
+    # quoted values under key=value stay GFF3
+    ('ID="g1";Name="x y"', {"fmt": "gff3", "keyval separator": "=", "quoted GFF2 values": True}),
+]
+
+
+def body_corners(ch, ctx):
+    text, want = ch.choose("line", CORNERS)
+    ctx.sample(lambda: dict(attribute_column=text, expected=want))
+    ctx.nontrivial()
+    ctx.outcome(("corner", text[:12]))
+    got = helpers.infer_dialect(text)
+    bad = sorted(k for k in want if got.get(k) != want[k])
+    ctx.check(not bad, "infer_dialect-differs", dict(corner=True, keys=",".join(bad)), line=text, got={k: got.get(k) for k in bad},
+              expected={k: want[k] for k in bad})
+
+
 def body(ch, ctx):
     kind = ctx.shard[0]
+    if kind == "corners":
+        return body_corners(ch, ctx)
     if kind == "cons":
         body_cons(ch, ctx)
     elif kind == "route":
